@@ -25,11 +25,20 @@ type countingReader struct {
 	data     []byte
 	pos      int
 	Consumed int
+	failAt   int // > 0: once that many bytes have been delivered the source fails (not with io.EOF)
 }
 
+var errSourceFailed = errors.New("source failed")
+
 func (r *countingReader) Read(b []byte) (int, error) {
+	if r.failAt > 0 && r.pos >= r.failAt {
+		return 0, errSourceFailed
+	}
 	if r.pos >= len(r.data) {
 		return 0, io.EOF
+	}
+	if r.failAt > 0 && len(b) > r.failAt-r.pos {
+		b = b[:r.failAt-r.pos]
 	}
 	n := copy(b, r.data[r.pos:])
 	r.pos += n
@@ -70,6 +79,7 @@ type xferSpec struct {
 	noOffset  bool // do not judge the File offset (C01 speaks about bytes and counts; offsets are C12/C13)
 	short     int  // k+1: the first READ of chunk k is answered with one byte only although the file goes on (sequential reads ask for the rest)
 	failRest  bool // ... and the request for the rest of that chunk fails
+	srcFail   int  // ReadFrom: the source fails (not EOF) after that many bytes
 	noType    bool // the server reports permission bits only for the file (no file-type bits: it is not known to be regular)
 }
 
@@ -80,6 +90,9 @@ func (s xferSpec) String() string {
 	}
 	if s.noType {
 		sh += " mode-without-type-bits"
+	}
+	if s.srcFail > 0 {
+		sh += fmt.Sprintf(" source-fails-after-%d", s.srcFail)
 	}
 	return fmt.Sprintf("%s conc=%v P=%d K=%d file=%d req=%d off=%d fail=%v permute=%v cut=%d fw=%d fwEOF=%v%s", s.api, s.conc, s.P, s.K, s.fileLen, s.reqLen, s.off, s.fail, s.permute, s.cut, s.failWrite, s.fwEOF, sh)
 }
@@ -175,7 +188,7 @@ func (s xferSpec) run(res *xferResult, envOut **cliEnv) {
 		res.n, res.err = int64(n), err
 	case "ReadFrom":
 		f.offset = int64(s.off)
-		cr := &countingReader{data: pattern(s.reqLen, 'a')}
+		cr := &countingReader{data: pattern(s.reqLen, 'a'), failAt: s.srcFail}
 		var src io.Reader = cr
 		if s.conc {
 			src = lenReader{cr} // has Len(): lets ReadFrom pick the concurrent path
@@ -184,7 +197,7 @@ func (s xferSpec) run(res *xferResult, envOut **cliEnv) {
 		res.n, res.err, res.consumed = n, err, cr.Consumed
 	case "ReadFromC":
 		f.offset = int64(s.off)
-		cr := &countingReader{data: pattern(s.reqLen, 'a')}
+		cr := &countingReader{data: pattern(s.reqLen, 'a'), failAt: s.srcFail}
 		n, err := f.ReadFromWithConcurrency(cr, s.K)
 		res.n, res.err, res.consumed = n, err, cr.Consumed
 	default:
@@ -260,6 +273,12 @@ func (s xferSpec) expected() (n int, errText string, offAfter int) {
 		if failAt >= 0 && failAt*s.P < s.reqLen {
 			errText = failMsg(failAt)
 			offAfter = s.off + failAt*s.P
+			n = -1
+		}
+		if s.srcFail > 0 && (failAt < 0 || failAt*s.P >= s.srcFail) {
+			// the source gave out first (in file order): its error, the prefix it delivered is intact
+			errText = "other:" + errSourceFailed.Error()
+			offAfter = s.off + s.srcFail
 			n = -1
 		}
 	}
@@ -534,6 +553,20 @@ func c13EOFSpecs() []xferSpec {
 		}
 	}
 	out = append(out, xferSpec{api: "WriteTo", conc: true, P: 2, K: 2, fileLen: 6, reqLen: 6, noType: true, fail: []int{1}, permute: true, cut: -1})
+	// uploads whose source gives out (an error that is not io.EOF) after whole and partial chunks, from offset 0 and from a
+	// non-zero offset, alone and together with a chunk the server refuses behind / in front of that point
+	for _, a := range []struct {
+		api  string
+		conc bool
+	}{{"ReadFrom", false}, {"ReadFrom", true}, {"ReadFromC", true}} {
+		for _, off := range []int{0, 5} {
+			for _, sf := range []int{2, 3, 4} {
+				out = append(out, xferSpec{api: a.api, conc: a.conc, P: 2, K: 2, reqLen: 8, off: off, srcFail: sf, permute: true, cut: -1})
+			}
+			out = append(out, xferSpec{api: a.api, conc: a.conc, P: 2, K: 2, reqLen: 8, off: off, srcFail: 4, fail: []int{0}, permute: true, cut: -1},
+				xferSpec{api: a.api, conc: a.conc, P: 2, K: 2, reqLen: 8, off: off, srcFail: 4, fail: []int{1}, permute: true, cut: -1})
+		}
+	}
 	for _, conc := range []bool{true, false} {
 		// request 8 bytes of a 5-byte file: chunks 0,1 full, chunk 2 short (1 byte), chunk 3 beyond EOF
 		out = append(out, xferSpec{api: "ReadAt", conc: conc, P: 2, K: 3, fileLen: 5, reqLen: 8, permute: true, cut: -1})
